@@ -74,8 +74,9 @@ func selftest(seed int64) int {
 					report("MC_Lookup: every repair is necessary in the model", false, fmt.Sprint(p))
 				}
 			}()
-			lookupNegativeRuns(r, lg)
-			report("MC_Lookup: every repair is necessary in the model", r.getCov("lookup_model_defects_reproduced") == int64(len(lookupFixes)), "")
+			lgh := newLookupHostGen(r, rand.New(rand.NewSource(1)), 0, 3, 3)
+			lookupNegativeRuns(r, lg, lgh)
+			report("MC_Lookup: every repair is necessary in the model", r.getCov("lookup_model_defects_reproduced") == int64(len(lookupFixes))+1, "")
 		}()
 		selftestHooks(r, report)
 	}()
@@ -107,7 +108,7 @@ func setupGenStubs() map[string]string {
 		"Gen_ObsServe.tla":   "---- MODULE Gen_ObsServe ----\nGenTable == << [m |-> \"GET\", pat |-> <<\"/\">>, opt |-> \"none\"] >>\nGenCfg == [noMethod |-> FALSE, autoOptions |-> FALSE]\nGenHost == <<\"a\">>\n====\n",
 		"Gen_ObsMatch.tla":   "---- MODULE Gen_ObsMatch ----\nGenPool == << <<\"/\">> >>\nGenTables == << {1} >>\n====\n",
 		"Gen_Radix.tla":      "---- MODULE Gen_Radix ----\nGenPool == << <<\"/\">> >>\nGenMaxRoutes == 1\n====\n",
-		"Gen_Lookup.tla":     "---- MODULE Gen_Lookup ----\nGenPool == << <<\"/\">> >>\nGenPaths == << <<\"/\">> >>\nGenMaxTab == 1\nGenEnumN == 1\nGenExtraTables == {}\nGenFixes == {}\n====\n",
+		"Gen_Lookup.tla":     "---- MODULE Gen_Lookup ----\nGenPool == << <<\"/\">> >>\nGenPaths == << <<\"/\">> >>\nGenHosts == << <<\"a\">> >>\nGenMaxTab == 1\nGenEnumN == 1\nGenExtraTables == {}\nGenFixes == {}\n====\n",
 		"trace.ndjson":       "",
 		"obs.ndjson":         "",
 	}
